@@ -10,6 +10,7 @@ import (
 	"math/rand"
 	"net/http"
 	"net/http/httptest"
+	goruntime "runtime"
 	"strings"
 	"sync"
 	"sync/atomic"
@@ -136,6 +137,7 @@ func c09Get(anon bool, authz bool) *c09API {
 	})
 	api.RegisterAuth("key", runtime.AuthenticatorFunc(func(params interface{}) (bool, interface{}, error) {
 		atomic.AddInt64(&c09Cnt.authn, 1) // every consultation of the scheme's authenticator
+		c09Rendezvous()
 		return keyAuth.Authenticate(params)
 	}))
 	if authz {
@@ -160,6 +162,22 @@ func c09Get(anon bool, authz bool) *c09API {
 	a.handler = ctx.APIHandler(nil)
 	c09APIs[key] = a
 	return a
+}
+
+// c09Rendezvous widens the overlap of concurrent requests between route matching and binding: in the
+// concurrent cases a request entering the authenticator waits (bounded) until another one is inside too.
+var c09ConcMode, c09Inside int64
+
+func c09Rendezvous() {
+	if atomic.LoadInt64(&c09ConcMode) == 0 {
+		return
+	}
+	atomic.AddInt64(&c09Inside, 1)
+	for i := 0; i < 2000 && atomic.LoadInt64(&c09Inside) < 2; i++ {
+		goruntime.Gosched()
+	}
+	goruntime.Gosched()
+	atomic.AddInt64(&c09Inside, -1)
 }
 
 func c09Request(in c09In, rid string) *http.Request {
@@ -418,12 +436,14 @@ func c09RunConc(in c09In, a *c09API, obs *c09Obs) {
 	var mu sync.Mutex
 	bad := []string{}
 	start := make(chan struct{})
+	atomic.StoreInt64(&c09ConcMode, 1)
+	defer atomic.StoreInt64(&c09ConcMode, 0)
 	for i, jb := range jobs {
 		wg.Add(1)
 		go func(i int, jb job) {
 			defer wg.Done()
 			<-start
-			for rep := 0; rep < 3; rep++ {
+			for rep := 0; rep < 12; rep++ {
 				req := c09Request(jb.in, jb.rid)
 				rec := httptest.NewRecorder()
 				a.handler.ServeHTTP(rec, req)
